@@ -5,6 +5,7 @@ import (
 	"encoding/json"
 	"fmt"
 	"reflect"
+	"strings"
 	"sync"
 	"sync/atomic"
 
@@ -19,6 +20,93 @@ type roOp struct {
 	Name string
 	// Run applies the operation and returns a digest of its result (for the concurrent = sequential comparison).
 	Run func(x vocab.Item) string
+	// Run2, when set, also receives a variant copy of x (every IRI in another, equivalent presentation)
+	Run2 func(x, variant vocab.Item) string
+}
+
+func (o roOp) apply(x, variant vocab.Item) string {
+	if o.Run2 != nil {
+		if variant == nil {
+			variant = x
+		}
+		return o.Run2(x, variant)
+	}
+	return o.Run(x)
+}
+
+// variantCopy deep-copies x and rewrites every IRI without query or fragment into an equivalent presentation (trailing
+// slash), so that comparisons between x and the copy take the parsing path of IRI equality everywhere.
+func variantCopy(x vocab.Item) vocab.Item {
+	c := vmodel.DeepCopy(x)
+	if c == nil {
+		return nil
+	}
+	v := reflect.ValueOf(c)
+	if v.Kind() != reflect.Pointer {
+		p := reflect.New(v.Type())
+		p.Elem().Set(v)
+		rewriteIRIs(p.Elem(), 0)
+		return p.Elem().Interface().(vocab.Item)
+	}
+	rewriteIRIs(v, 0)
+	return c.(vocab.Item)
+}
+
+func rewriteIRIs(v reflect.Value, depth int) {
+	if depth > 4000 {
+		return
+	}
+	switch v.Kind() {
+	case reflect.Pointer:
+		if !v.IsNil() {
+			rewriteIRIs(v.Elem(), depth+1)
+		}
+	case reflect.Interface:
+		if v.IsNil() {
+			return
+		}
+		if iri, ok := v.Interface().(vocab.IRI); ok {
+			if v.CanSet() {
+				v.Set(reflect.ValueOf(vocab.Item(variantIRI(iri))))
+			}
+			return
+		}
+		e := v.Elem()
+		if e.Kind() == reflect.Pointer {
+			rewriteIRIs(e, depth+1)
+		} else if e.Kind() == reflect.Slice && v.CanSet() {
+			n := reflect.New(e.Type()).Elem()
+			n.Set(e)
+			rewriteIRIs(n, depth+1)
+			v.Set(n)
+		}
+	case reflect.Struct:
+		if v.Type() == vmodel.TimeT {
+			return
+		}
+		for i := 0; i < v.NumField(); i++ {
+			rewriteIRIs(v.Field(i), depth+1)
+		}
+	case reflect.Slice:
+		for i := 0; i < v.Len(); i++ {
+			rewriteIRIs(v.Index(i), depth+1)
+		}
+	case reflect.String:
+		if v.Type() == vmodel.IriT && v.CanSet() {
+			v.SetString(string(variantIRI(vocab.IRI(v.String()))))
+		}
+	}
+}
+
+func variantIRI(i vocab.IRI) vocab.IRI {
+	s := string(i)
+	if i := strings.Index(s, "?a=1&b=2"); i >= 0 {
+		return vocab.IRI(s[:i] + "?b=2&a=1")
+	}
+	if s == "" || strings.ContainsAny(s, "?#") || !strings.HasPrefix(s, "http") {
+		return i
+	}
+	return vocab.IRI(s + "/")
 }
 
 func digestBytes(b []byte, err error) string {
@@ -45,36 +133,64 @@ func digestGob(b []byte, err error) string {
 
 func roOps() []roOp {
 	ops := []roOp{
-		{"MarshalJSON(pkg)", func(x vocab.Item) string { return digestBytes(vocab.MarshalJSON(x)) }},
-		{"x.MarshalJSON()", func(x vocab.Item) string {
+		{Name: "MarshalJSON(pkg)", Run: func(x vocab.Item) string { return digestBytes(vocab.MarshalJSON(x)) }},
+		{Name: "x.MarshalJSON()", Run: func(x vocab.Item) string {
 			if m, ok := x.(json.Marshaler); ok {
 				return digestBytes(m.MarshalJSON())
 			}
 			return "n/a"
 		}},
-		{"GobEncode(pkg)", func(x vocab.Item) string { return digestGob(vocab.GobEncode(x)) }},
-		{"x.GobEncode()", func(x vocab.Item) string { return digestGob(callMarshal(x, "GobEncode")) }},
-		{"x.MarshalBinary()", func(x vocab.Item) string { return digestGob(callMarshal(x, "MarshalBinary")) }},
-		{"ItemsEqual(x,x)", func(x vocab.Item) string { return fmt.Sprint(vocab.ItemsEqual(x, x)) }},
-		{"fmt %s", func(x vocab.Item) string { return fmt.Sprintf("%d", len(fmt.Sprintf("%s", x))) }},
-		{"fmt %v", func(x vocab.Item) string { return fmt.Sprintf("%d", len(fmt.Sprintf("%v", x))) }},
-		{"fmt %+v", func(x vocab.Item) string { return fmt.Sprintf("%d", len(fmt.Sprintf("%+v", x))) }},
-		{"IsNil/NotEmpty", func(x vocab.Item) string { return fmt.Sprint(vocab.IsNil(x), vocab.NotEmpty(x)) }},
-		{"predicates", func(x vocab.Item) string {
+		{Name: "GobEncode(pkg)", Run: func(x vocab.Item) string { return digestGob(vocab.GobEncode(x)) }},
+		{Name: "x.GobEncode()", Run: func(x vocab.Item) string { return digestGob(callMarshal(x, "GobEncode")) }},
+		{Name: "x.MarshalBinary()", Run: func(x vocab.Item) string { return digestGob(callMarshal(x, "MarshalBinary")) }},
+		{Name: "ItemsEqual(x,x)", Run: func(x vocab.Item) string { return fmt.Sprint(vocab.ItemsEqual(x, x)) }},
+		{Name: "ItemsEqual(x,variant)", Run2: func(x, y vocab.Item) string { return fmt.Sprint(vocab.ItemsEqual(x, y), vocab.ItemsEqual(y, x)) }},
+		{Name: "Contains(variant)", Run2: func(x, y vocab.Item) string {
+			out := ""
+			_ = vocab.OnCollectionIntf(x, func(c vocab.CollectionInterface) error {
+				_ = vocab.OnCollectionIntf(y, func(cy vocab.CollectionInterface) error {
+					for _, m := range cy.Collection() {
+						out += fmt.Sprint(c.Contains(m))
+					}
+					return nil
+				})
+				return nil
+			})
+			_ = vocab.OnObject(x, func(o *vocab.Object) error {
+				return vocab.OnObject(y, func(oy *vocab.Object) error {
+					if o == nil || oy == nil {
+						return nil
+					}
+					for _, m := range oy.To {
+						out += fmt.Sprint(o.To.Contains(m))
+					}
+					for _, m := range oy.Tag {
+						out += fmt.Sprint(o.Tag.Contains(m))
+					}
+					return nil
+				})
+			})
+			return out
+		}},
+		{Name: "fmt %s", Run: func(x vocab.Item) string { return fmt.Sprintf("%d", len(fmt.Sprintf("%s", x))) }},
+		{Name: "fmt %v", Run: func(x vocab.Item) string { return fmt.Sprintf("%d", len(fmt.Sprintf("%v", x))) }},
+		{Name: "fmt %+v", Run: func(x vocab.Item) string { return fmt.Sprintf("%d", len(fmt.Sprintf("%+v", x))) }},
+		{Name: "IsNil/NotEmpty", Run: func(x vocab.Item) string { return fmt.Sprint(vocab.IsNil(x), vocab.NotEmpty(x)) }},
+		{Name: "predicates", Run: func(x vocab.Item) string {
 			return fmt.Sprint(vocab.IsObject(x), vocab.IsLink(x), vocab.IsIRI(x), vocab.IsIRIs(x), vocab.IsItemCollection(x), x.IsObject(), x.IsLink(), x.IsCollection(), x.GetType(), x.GetLink(), x.GetID())
 		}},
-		{"DerefItem", func(x vocab.Item) string { return fmt.Sprint(len(vocab.DerefItem(x))) }},
-		{"ItemOrderTimestamp", func(x vocab.Item) string {
+		{Name: "DerefItem", Run: func(x vocab.Item) string { return fmt.Sprint(len(vocab.DerefItem(x))) }},
+		{Name: "ItemOrderTimestamp", Run: func(x vocab.Item) string {
 			return fmt.Sprint(vocab.ItemOrderTimestamp(x, x), vocab.ItemOrderTimestamp(x, vocab.IRI("https://example.com/i")))
 		}},
-		{"FlattenToIRI", func(x vocab.Item) string {
+		{Name: "FlattenToIRI", Run: func(x vocab.Item) string {
 			r := vocab.FlattenToIRI(x)
 			if r == nil {
 				return "nil"
 			}
 			return string(r.GetLink())
 		}},
-		{"Inbox.IRI/Of", func(x vocab.Item) string {
+		{Name: "Inbox.IRI/Of", Run: func(x vocab.Item) string {
 			of := vocab.Likes.Of(x)
 			s := string(vocab.Inbox.IRI(x))
 			if of != nil {
@@ -82,7 +198,7 @@ func roOps() []roOp {
 			}
 			return s
 		}},
-		{"collection accessors", func(x vocab.Item) string {
+		{Name: "collection accessors", Run: func(x vocab.Item) string {
 			out := ""
 			_ = vocab.OnCollectionIntf(x, func(c vocab.CollectionInterface) error {
 				col := c.Collection()
@@ -91,7 +207,7 @@ func roOps() []roOp {
 			})
 			return out
 		}},
-		{"language accessors", func(x vocab.Item) string {
+		{Name: "language accessors", Run: func(x vocab.Item) string {
 			out := ""
 			_ = vocab.OnObject(x, func(o *vocab.Object) error {
 				if o == nil {
@@ -109,7 +225,7 @@ func roOps() []roOp {
 	// every On*/To* with a callback that only reads
 	for _, h := range allViewHelpers {
 		h := h
-		ops = append(ops, roOp{"On" + h.Name + "(read-only)", func(x vocab.Item) string {
+		ops = append(ops, roOp{Name: "On" + h.Name + "(read-only)", Run: func(x vocab.Item) string {
 			d := "not-called"
 			err := h.On(x, func(p any) {
 				v := reflect.ValueOf(p)
@@ -126,7 +242,7 @@ func roOps() []roOp {
 			}
 			return d
 		}})
-		ops = append(ops, roOp{"To" + h.Name, func(x vocab.Item) string {
+		ops = append(ops, roOp{Name: "To" + h.Name, Run: func(x vocab.Item) string {
 			p, err := h.To(x)
 			if err != nil {
 				return "refused"
@@ -142,6 +258,7 @@ var allRoOps = roOps()
 func sharedValue(g *vmodel.Gen, idx int) vocab.Item {
 	g.Spare = true
 	g.Exact = true
+	g.Queries = true
 	k := vmodel.Kinds[idx%len(vmodel.Kinds)]
 	g.PSet = []float64{0.2, 0.45, 0.8}[idx%3]
 	p := g.Struct(k, 1+idx%2, true)
@@ -201,6 +318,7 @@ func init() {
 					g := caseGen(c, false, idx)
 					x := sharedValue(g, idx)
 					fp := vmodel.Fingerprint(vmodel.Canon(x, vmodel.Exact))
+					variant := variantCopy(x)
 					before := vmodel.TakeSnapshot(x)
 					beforeH := vmodel.SnapshotHash(x)
 					for _, op := range allRoOps {
@@ -208,7 +326,7 @@ func init() {
 							continue
 						}
 						c.Pending(op.Name + " :: " + kindOf(x))
-						if c.Guard(op.Name, func() { _ = op.Run(x) }) {
+						if c.Guard(op.Name, func() { _ = op.apply(x, variant) }) {
 							continue
 						}
 						c.Eval(1)
@@ -238,11 +356,12 @@ func init() {
 							ops = append(ops, op)
 						}
 					}
+					variant := variantCopy(x)
 					// sequential results first
 					seq := make([]string, len(ops))
 					for i, op := range ops {
 						op := op
-						if c.Guard(op.Name, func() { seq[i] = op.Run(x) }) {
+						if c.Guard(op.Name, func() { seq[i] = op.apply(x, variant) }) {
 							return
 						}
 					}
@@ -281,7 +400,7 @@ func init() {
 											got = fmt.Sprintf("panic: %v", rec)
 										}
 									}()
-									got = ops[i].Run(x)
+									got = ops[i].apply(x, variant)
 								}()
 								atomic.AddInt32(&inflight[i], -1)
 								if got != seq[i] {
